@@ -25,7 +25,16 @@ from uuid import UUID, uuid1
 
 from typing_extensions import TypeAlias
 
-from ..plugin.types import EPName, from_ep_name, plugin_args, to_ep_name
+from ..plugin.types import (
+    EP_NAME_VER_SEP,
+    EPName,
+    SemVerStr,
+    from_ep_name,
+    from_semver_str,
+    plugin_args,
+    to_ep_name,
+    to_semver_str,
+)
 from ..plugins import schemas
 from ..schema import MetadataSchema
 from ..schema.plugins import PluginPkgMeta, PluginRef
@@ -846,7 +855,15 @@ class TOCPackages:
 
     @staticmethod
     def _pkginfo_path_for(pkg_name: str, pkg_version: SemVerTuple) -> str:
-        return f"{M.METADOR_PACKAGES_PATH}/{to_ep_name(pkg_name, pkg_version)}"
+        # NOTE: same shape as an entry point name, but names of Python packages
+        # are not restricted like plugin names are (e.g. can have capital letters)
+        ver_str = to_semver_str(pkg_version)
+        return f"{M.METADOR_PACKAGES_PATH}/{pkg_name}{EP_NAME_VER_SEP}{ver_str}"
+
+    @staticmethod
+    def _pkg_from_node_name(name: str) -> PythonDep:
+        pkg_name, ver_str = name.rsplit(EP_NAME_VER_SEP, 1)
+        return (pkg_name, from_semver_str(SemVerStr(ver_str)))
 
     def _add_providers(self, pkg: PythonDep, pkginfo: PluginPkgMeta):
         # fill schema -> package lookup table for provided package
@@ -890,7 +907,7 @@ class TOCPackages:
         if M.METADOR_PACKAGES_PATH in self._raw:
             deps_grp = self._raw.require_group(M.METADOR_PACKAGES_PATH)
             for name, node in deps_grp.items():
-                pkg: PythonDep = from_ep_name(EPName(name))
+                pkg: PythonDep = self._pkg_from_node_name(name)
                 info = PluginPkgMeta.parse_raw(cast(H5DatasetLike, node)[()])
                 self._pkginfos[pkg] = info
                 self._add_providers(pkg, info)
